@@ -44,6 +44,9 @@ struct verif_in {
 	int64_t b_size, b_mtime; int b_nsec; unsigned b_flag; uint64_t b_inode;
 	/* stamp index of the two disks */
 	int stamp_hit[2], full_hashed[2];
+	/* scan.removed region */
+	int npresent_f[3], npresent_l[3], npresent_d[3];
+	int nf, nl, nd_;
 	/* scan.link */
 	int link_found, same_target, lkind_rec, lkind_now;
 	/* scan.emptydir */
@@ -483,6 +486,64 @@ void h_scan_link(void)
 	else
 		VERIF_ASSERT(SC.count_change == IN.cnt[3] % 1000 + 1 && (LNK0.flag & FILE_IS_PRESENT) && SC.need_write && LNK0.linkto == (IN.same_target ? TGT_A : TGT_B) && (LNK0.flag & FILE_IS_LINK_MASK) == now_kind,
 			"a link whose target or kind changed is an update: the record takes the new target and kind and must be saved");
+	VERIF_CANARY();
+}
+#endif
+
+
+/* ---------------------------------------------------------------- removal detection (state_diffscan, region "check for removed files" .. "sort the files") */
+#ifdef VERIF_REMOVED
+static struct snapraid_file RF0, RF1, RF2;
+static struct snapraid_link RL0, RL1, RL2;
+static struct snapraid_dir RD0, RD1, RD2;
+static struct snapraid_file *const RF[3] = { &RF0, &RF1, &RF2 };
+static struct snapraid_link *const RL[3] = { &RL0, &RL1, &RL2 };
+static struct snapraid_dir *const RD[3] = { &RD0, &RD1, &RD2 };
+static unsigned g_rm_f[3], g_rm_l[3], g_rm_d[3];
+static void r_file_remove(struct snapraid_scan *scan, struct snapraid_file *f) { int k; (void)scan; for (k = 0; k < 3; ++k) if (f == RF[k]) ++g_rm_f[k]; }
+static void r_link_remove(struct snapraid_scan *scan, struct snapraid_link *l) { int k; (void)scan; for (k = 0; k < 3; ++k) if (l == RL[k]) ++g_rm_l[k]; }
+static void r_dir_remove(struct snapraid_scan *scan, struct snapraid_dir *d) { int k; (void)scan; for (k = 0; k < 3; ++k) if (d == RD[k]) ++g_rm_d[k]; }
+#define scan_file_remove r_file_remove
+#define scan_link_remove r_link_remove
+#define scan_emptydir_remove r_dir_remove
+#define esc_tag v_esc
+#define fmt_term v_fmt
+#include "region_scan_removed.c"
+#undef scan_file_remove
+#undef scan_link_remove
+#undef scan_emptydir_remove
+#undef esc_tag
+#undef fmt_term
+
+void h_scan_removed(void)
+{
+	int k;
+	unsigned expect_remove = 0;
+	VERIF_INPUTS();
+	VERIF_ASSUME(IN.nf >= 0 && IN.nf <= 3 && IN.nl >= 0 && IN.nl <= 3 && IN.nd_ >= 0 && IN.nd_ <= 3);
+	SC.state = &ST;
+	SC.disk = &DISK0;
+	SC.count_remove = 0;
+	tommy_list_init(&DISK0.filelist);
+	tommy_list_init(&DISK0.linklist);
+	tommy_list_init(&DISK0.dirlist);
+	for (k = 0; k < 3; ++k) {
+		RF[k]->sub = SUB; RL[k]->sub = SUB; RD[k]->sub = SUB;
+		RF[k]->flag = IN.npresent_f[k] ? 0 : FILE_IS_PRESENT;
+		RL[k]->flag = IN.npresent_l[k] ? 0 : FILE_IS_PRESENT;
+		RD[k]->flag = IN.npresent_d[k] ? 0 : FILE_IS_PRESENT;
+		g_rm_f[k] = g_rm_l[k] = g_rm_d[k] = 0;
+		if (k < IN.nf) { tommy_list_insert_tail(&DISK0.filelist, &RF[k]->nodelist, RF[k]); if (IN.npresent_f[k]) ++expect_remove; }
+		if (k < IN.nl) { tommy_list_insert_tail(&DISK0.linklist, &RL[k]->nodelist, RL[k]); if (IN.npresent_l[k]) ++expect_remove; }
+		if (k < IN.nd_) tommy_list_insert_tail(&DISK0.dirlist, &RD[k]->nodelist, RD[k]);
+	}
+	region_scan_removed(&SC, &DISK0, IN.is_diff);
+	for (k = 0; k < 3; ++k) {
+		VERIF_ASSERT(g_rm_f[k] == ((k < IN.nf && IN.npresent_f[k]) ? 1u : 0u), "exactly the recorded files the walk did not meet are removed, each once");
+		VERIF_ASSERT(g_rm_l[k] == ((k < IN.nl && IN.npresent_l[k]) ? 1u : 0u), "exactly the recorded links the walk did not meet are removed, each once");
+		VERIF_ASSERT(g_rm_d[k] == ((k < IN.nd_ && IN.npresent_d[k]) ? 1u : 0u), "exactly the recorded empty directories the walk did not meet are removed, each once");
+	}
+	VERIF_ASSERT(SC.count_remove == expect_remove, "every removed file and link is counted as removed (empty directories are not counted)");
 	VERIF_CANARY();
 }
 #endif
